@@ -267,11 +267,11 @@ def work_store(args):
             if full is None:
                 continue
             full = list(search.find(Params(**q)).items)
-            for limit in (None, 1, 2, 3):
+            for limit in (None, 0, 1, 2, 3):
                 for index in range(0, len(full) + 2):
                     check_find(ctx, search, content, q, index, limit, full)
                     ctx.count('pages')
-                if limit is not None:
+                if limit:
                     cat, i = [], 0
                     while True:
                         page = search.find(Params(**q), i, limit).items
